@@ -10,6 +10,10 @@ use rustun_verif_harness::*;
 use stun_rs::attributes::stun::*;
 use stun_rs::*;
 
+#[allow(dead_code)]
+#[path = "attrval.rs"]
+mod av;
+
 fn decoder(k: bool, v: bool, u: bool, n: bool, key: &[u8]) -> MessageDecoder {
     let mut b = DecoderContextBuilder::default();
     if k {
@@ -182,6 +186,28 @@ fn gen_msg(rng: &mut Rng, key: &[u8]) -> Vec<u8> {
     r.bytes
 }
 
+/// a message whose ordinary attributes are valid encodings of registered kinds (values from the attrval generators,
+/// encoded by stun-rs itself), with an integrity / fingerprint tail
+fn gen_typed_msg(rng: &mut Rng, key: &[u8], round: u64) -> Vec<u8> {
+    let txid: [u8; 12] = rng.bytes(12).try_into().unwrap();
+    let mut r = Raw::new(rng.below(0x1000) as u16, rng.below(4) as u8, &txid);
+    for _ in 0..rng.range(1, 4) {
+        let (ty, fam) = *rng.pick(&av::KINDS);
+        if ty == T_MI || ty == T_SHA || ty == T_FP { continue }
+        let specs = av::gen_specs(rng, round, ty, fam, false);
+        if specs.is_empty() { continue }
+        let tok = rng.pick(&specs).clone();
+        let Some(attr) = av::build(ty, &tok) else { continue };
+        match av::encode_value(&attr, &txid, 800) {
+            Ok(Some(v)) if v.len() <= 780 => { r.push(ty, &v); }
+            _ => {}
+        }
+    }
+    let tail = *rng.pick(&["", "M", "S", "F", "MS", "MF", "MSF", "SF"]);
+    for c in tail.bytes() { match c { b'M' => { r.push_mi(key); } b'S' => { r.push_sha(key); } _ => { r.push_fp(); } } }
+    r.bytes
+}
+
 fn mutate(rng: &mut Rng, b: &[u8]) -> Vec<u8> {
     let mut x = b.to_vec();
     if x.len() < 20 {
@@ -233,7 +259,7 @@ fn main() {
     let mine = n / args.shards + if args.shard < n % args.shards { 1 } else { 0 };
     let (mut structured, mut mutated, mut random, mut faults) = (0u64, 0u64, 0u64, 0u64);
     for i in 0..mine {
-        let base = gen_msg(&mut rng, &key);
+        let base = if rng.chance(1, 2) { gen_typed_msg(&mut rng, &key, i) } else { gen_msg(&mut rng, &key) };
         match rng.below(10) {
             0..=3 => { run_case(&mut out, &key, &base); structured += 1 }
             4..=7 => { let m = mutate(&mut rng, &base); let m = if rng.chance(1, 4) { mutate(&mut rng, &m) } else { m }; run_case(&mut out, &key, &m); mutated += 1 }
